@@ -277,3 +277,90 @@ pub fn light_invariants(areas: &[Light]) -> Option<String> {
     }
     None
 }
+
+/// Which neutral operations a monitor can tolerate between two of its own steps.
+#[derive(Clone, Copy)]
+pub struct Perturb {
+    /// far-away zero-length areas may be created (they own no byte)
+    pub areas: bool,
+    /// a do-nothing hook may be registered for NOP
+    pub hooks: bool,
+    /// the machine may be replaced by its clone
+    pub clone: bool,
+}
+
+fn perturb_noop_hook(_: &mut Axecutor, _: ax_x86::auto::generated::SupportedMnemonic) -> Result<ax_x86::state::hooks::HookResult, Box<dyn std::error::Error>> {
+    Ok(ax_x86::state::hooks::HookResult::Unhandled)
+}
+
+/// Host-side operations that must be invisible to every property: rendering the machine as text, pure reads, an
+/// empty handle_syscalls call, mem_prot with the mask an area already has, a far-away empty area, a do-nothing
+/// hook, continuing with a clone of the machine. Run at random points of a history they expose hidden coupling
+/// (caches, list-order dependence, state that a renderer or a clone loses). Returns a description when the
+/// observable state changed or the operation panicked.
+pub fn perturb(ax: &mut Axecutor, rng: &mut crate::util::Rng, o: &Perturb) -> Option<String> {
+    let before = snapshot(ax);
+    let mut made_area = false;
+    let what: &str;
+    match rng.below(8) {
+        0 => {
+            what = "to_string/trace/call_stack";
+            if let Call::Panic(p) = call_plain(|| ax.to_string()) {
+                return Some(format!("to_string() panicked: {}", p.msg));
+            }
+            if let Call::Panic(p) = call(|| ax.trace()) {
+                return Some(format!("trace() panicked: {}", p.msg));
+            }
+            if let Call::Panic(p) = call(|| ax.call_stack()) {
+                return Some(format!("call_stack() panicked: {}", p.msg));
+            }
+        }
+        1 => {
+            what = "handle_syscalls([])";
+            if let Call::Panic(p) = call(|| ax.handle_syscalls(vec![])) {
+                return Some(format!("handle_syscalls([]) panicked: {}", p.msg));
+            }
+        }
+        2 => {
+            what = "pure reads";
+            for r in GPR64.iter() {
+                let _ = call(|| ax.reg_read_64(*r));
+            }
+            if let Some(a) = before.areas.first() {
+                let _ = call(|| ax.mem_read_bytes(a.start, a.length.min(64)));
+            }
+            let _ = call_plain(|| ax.resolve_symbol(before.rip));
+        }
+        3 if o.hooks => {
+            what = "do-nothing hook on NOP";
+            let _ = call(|| ax.hook_before_mnemonic_native(ax_x86::auto::generated::SupportedMnemonic::Nop, &perturb_noop_hook));
+        }
+        4 if o.areas => {
+            what = "far-away empty area";
+            let at = 0x7777_1000_0000u64 + 0x1000 * rng.below(1 << 16) + rng.below(0x1000);
+            made_area = call(|| ax.mem_init_zero(at, 0)).is_ok();
+        }
+        5 => {
+            what = "mem_prot with the current mask";
+            if !before.areas.is_empty() {
+                let a = &before.areas[rng.below(before.areas.len() as u64) as usize];
+                if a.length > 0 && before.areas.iter().filter(|b| b.start == a.start).count() == 1 {
+                    let _ = call(|| ax.mem_prot(a.start, a.access));
+                }
+            }
+        }
+        6 if o.clone => {
+            what = "continue with a clone";
+            match catch(|| ax.clone()) {
+                Ok(c) => *ax = c,
+                Err(p) => return Some(format!("clone() panicked: {}", p.msg)),
+            }
+        }
+        _ => return None,
+    }
+    let mut after = snapshot(ax);
+    if made_area {
+        after.areas.retain(|a| !(a.length == 0 && a.start >= 0x7777_1000_0000 && !before.areas.iter().any(|b| b.start == a.start)));
+    }
+    snapshot_diff(&before, &after).map(|d| format!("{} changed the machine: {}", what, d))
+}
